@@ -111,7 +111,7 @@ fn decode(src: &mut Source) -> Case {
             Probe {
                 src: Ipv4Addr::from(ip),
                 edge,
-                path: *src.pick(&["/metrics", "/", "/health", "/anything/else?x=1", "/metrics"]),
+                path: *src.pick(&["/metrics", "/", "/health", "/anything/else?x=1", "/metrics", "/healthz", "/health/", "/health/metrics", "/healthcheck", "/Health", "/heal", "/api/health", "/health?probe=1", "//health"]),
                 fault: *src.pick(&[Fault::None, Fault::None, Fault::None, Fault::Garbage, Fault::HalfOpen, Fault::PartialReset, Fault::Burst]),
                 bump: src.int_in(0, 5),
             }
@@ -320,8 +320,11 @@ pub fn case_scrape(bytes: &[u8], _s: &[u8], ctx: &mut Ctx) -> Result<(), Fail> {
             } else {
                 ensure!(resp.status == 200, "allowed-peer-not-served", "peer {} lies inside {:?} (or no allowlist is set) but got status {}", p.src, case.entries.iter().map(entry_text).collect::<Vec<_>>(), resp.status);
                 let body = String::from_utf8_lossy(&resp.body).to_string();
+                // the health answer belongs to the path /health alone; every other path gets the rendering
                 if p.path == "/health" {
                     ensure!(body == "OK", "health-body-wrong", "/health returned {:?}", body);
+                } else if p.path.starts_with("/health?") && body == "OK" {
+                    // the path component is /health: answering OK is right (a rendering would be accepted as well)
                 } else {
                     let lines = parse_prometheus(&body).map_err(|e| Fail::new("scrape-body-not-well-formed", format!("{} ; body {:?}", e, body)))?;
                     let fams = prom_families(&lines).map_err(|e| Fail::new("scrape-body-family-structure", e))?;
